@@ -84,6 +84,14 @@ def main():
     ok = len(body) == 2 and kinds == ['map', 'val'] and not unknown
     print('%-4s %s (%d loop-body paths, item kinds %s, %d branching on an unknown tag)' % ('OK' if ok else 'BAD', 'models::chain_loop', len(body), kinds, len(unknown)))
     bad += not ok
+    # pairs_loop: zip(iter, skip(1)) yields one symbolic segment per iteration; its two ends are compared with each other
+    b_ = fx.body('models::pairs_loop')
+    ps_ = sym.Explorer(fx, b_, Purity(fx)).explore() if b_ is not None else []
+    body = [p for p in ps_ if p.end == 'backedge']
+    cmp_ = [show(noepoch(v)) for p in body for (v, c) in p.conds if '.start' in show(noepoch(v)) and '.end' in show(noepoch(v))]
+    ok = len(body) == 2 and len(cmp_) == 2
+    print('%-4s %s (%d loop-body paths, %d compare start with end of the same segment)' % ('OK' if ok else 'BAD', 'models::pairs_loop', len(body), len(cmp_)))
+    bad += not ok
     print('%d model controls not OK' % bad)
     sys.exit(1 if bad else 0)
 
